@@ -29,7 +29,7 @@ fn bound_or(b: &Option<usize>, dflt: usize) -> usize {
 // s[a:b] on strings
 // ---------------------------------------------------------------------------------------
 fn str_range_contract(n: usize) {
-    let bytes: [u8; MAXLEN] = kani::any();
+    let bytes: [u8; MAXLEN] = [kani::any(), kani::any(), kani::any()];
     let start = sym_bound();
     let end = sym_bound();
     let mut s: Vec<u8> = Vec::with_capacity(MAXLEN);
@@ -141,7 +141,7 @@ fn list_unchanged(l: &ListRef, n: usize, e: &[i64; MAXLEN]) -> bool {
 }
 
 fn list_range_contract(n: usize) {
-    let e: [i64; MAXLEN] = kani::any();
+    let e: [i64; MAXLEN] = [kani::any(), kani::any(), kani::any()];
     let start = sym_bound();
     let end = sym_bound();
     let list = int_list_n(n, &e);
